@@ -42,6 +42,64 @@ func A(s string) LP {
 	}}
 }
 
+// globMatch matches s against a pattern in which '*' stands for any substring
+// that is balanced in (), [] and {} and contains no top-level ", ".
+func globMatch(pat, s string) bool {
+	if pat == "" {
+		return s == ""
+	}
+	if pat[0] != '*' {
+		if s == "" || s[0] != pat[0] {
+			return false
+		}
+		return globMatch(pat[1:], s[1:])
+	}
+	// '*'
+	depth := 0
+	for i := 0; ; i++ {
+		if depth == 0 && globMatch(pat[1:], s[i:]) {
+			return true
+		}
+		if i >= len(s) {
+			return false
+		}
+		switch s[i] {
+		case '(', '[', '{':
+			depth++
+		case ')', ']', '}':
+			depth--
+			if depth < 0 {
+				return false
+			}
+		case ',':
+			if depth == 0 && i+1 < len(s) && s[i+1] == ' ' {
+				return false
+			}
+		}
+	}
+}
+
+// AG: atom whose key matches a glob pattern ("+pattern" / "-pattern").
+func AG(s string) LP {
+	pol := true
+	switch s[0] {
+	case '+':
+		s = s[1:]
+	case '-':
+		pol = false
+		s = s[1:]
+	}
+	pat := s
+	return LP{Desc: map[bool]string{true: "+", false: "-"}[pol] + pat, F: func(l Label) bool {
+		return l.Kind == "atom" && l.Pol == pol && globMatch(pat, l.Key)
+	}}
+}
+
+// CallG: a call event whose resolved key matches a glob pattern.
+func CallG(pat string) LP {
+	return LP{Desc: "call " + pat, F: func(l Label) bool { return l.Kind == "call" && globMatch(pat, l.Key) }}
+}
+
 func AnyOf(lps ...LP) LP {
 	var ds []string
 	for _, p := range lps {
@@ -89,6 +147,16 @@ func blockedBy(lp LP) func(*PEdge) bool {
 
 func (c *Check) search(pg *PG, from []*PState, target func(*PState) bool, blocked func(*PEdge) bool) ([]*PEdge, bool) {
 	c.Searches++
+	if pg.Infeasible != nil {
+		inf := pg.Infeasible
+		b0 := blocked
+		blocked = func(e *PEdge) bool {
+			if e.has(inf.F) {
+				return true
+			}
+			return b0 != nil && b0(e)
+		}
+	}
 	return pg.Search(from, target, blocked)
 }
 
